@@ -40,10 +40,10 @@ def cases(chk):
 def prepare(parsed, i, j, enter_data=False):
     nodes = parsed.region_nodes(i, j)
     real = R.real_acc_clauses(parsed, i, j, enter_data=enter_data)
-    executable = not R.non_minif(nodes)
+    executable = not R.non_minif(nodes, parsed.names)
     items = R.item_sexps(parsed, nodes) if executable else R.access_items(parsed, nodes)
-    excluded = any(it == ["x"] for it in items)
-    lines = [R.line("trans", 1 if enter_data else 0, R.call_argument_vars(parsed, nodes), parsed.parent_pairs(), items)]
+    excluded = any(it[0] == "x" for it in items)
+    lines = [R.line("trans", 1 if enter_data else 0, parsed.parent_pairs(), items)]
     ctx = {"parsed": parsed, "i": i, "j": j, "enter": enter_data, "real": real, "excluded": excluded, "nexec": 0}
     if not excluded and nodes:
         region = parsed.export(nodes, access_only=not executable)
@@ -74,6 +74,8 @@ def conclude(ctx, out):
     if len(out) > 1:
         m = common.parse_sx(out[1])
         res["fwor"], res["cnr"], res["ccov"] = m[3] == 1, m[4] == 1, m[5] == 1
+        if m[6] != 1 and ctx["nexec"]:
+            raise common.Infra("exported region violates RegionData.covered (harness bug)")
     per, _ = parsed.queries()
     if not isinstance(real, dict):
         return res
